@@ -20,7 +20,7 @@ impl T {
 #[derive(Serialize, Deserialize, Clone, Debug)]
 pub enum DOp { Encode(T), DictEncode(String), DecodeInvalid(u32), AddQuad(T, T, T, Option<u32>), CreateGraph(u32), Seed(T, T, u32), Recheck }
 #[derive(Serialize, Deserialize, Clone, Debug)]
-pub struct DictCase { pub hash_seed: u64, pub pad_b: u32, pub a: Vec<DOp>, pub b: Vec<DOp> }
+pub struct DictCase { pub hash_seed: u64, pub pad_b: u32, pub a: Vec<DOp>, pub b: Vec<DOp>, #[serde(default)] pub exhaust: Option<u32> }
 pub struct C15;
 
 type LQ = (String, String, String, Option<String>);
@@ -101,10 +101,10 @@ fn collect_quoted(t: &T, out: &mut Vec<T>) { if let T::Quoted(s, _, o) = t { out
 impl Prop for C15 {
     type Case = DictCase;
     fn id(&self) -> &'static str { "C15" }
-    fn expected_counters(&self) -> Vec<&'static str> { vec!["probe.full_recheck_of_issued_ids", "probe.both_operands_hold_quoted_terms", "probe.operands_share_quads", "probe.identifiers_clash_between_operands"] }
+    fn expected_counters(&self) -> Vec<&'static str> { vec!["probe.full_recheck_of_issued_ids", "probe.both_operands_hold_quoted_terms", "probe.operands_share_quads", "probe.identifiers_clash_between_operands", "fault.identifier_space_exhausted"] }
     fn budget(&self, tier: Tier) -> Budget { match tier { Tier::Quick => Budget { runs: 6000, wall_s: 60, recheck: 30 }, Tier::Thorough => Budget { runs: 300_000, wall_s: 1500, recheck: 100 } } }
     fn hash_seed(&self, c: &DictCase) -> u64 { c.hash_seed }
-    fn gen(&self, seed: u64, _i: u64, _t: Tier) -> DictCase { let mut r = Rng::sub(seed, "workload"); DictCase { hash_seed: Rng::sub(seed, "hash").next(), pad_b: r.below(7) as u32, a: gen_ops(&mut r), b: gen_ops(&mut r) } }
+    fn gen(&self, seed: u64, _i: u64, _t: Tier) -> DictCase { let mut r = Rng::sub(seed, "workload"); DictCase { hash_seed: Rng::sub(seed, "hash").next(), pad_b: r.below(7) as u32, a: gen_ops(&mut r), b: gen_ops(&mut r), exhaust: if r.chance(1, 8) { Some(r.below(4) as u32) } else { None } } }
     fn exec(&self, c: &DictCase, ctx: &mut Ctx) -> Option<Violation> {
         let mut a = SparqlDatabase::new(); let mut b = SparqlDatabase::new();
         for i in 0..c.pad_b { b.encode_term_star(&format!("<http://e/pad{}>", i)); } // shift b's identifiers so they clash with a's
@@ -128,6 +128,23 @@ impl Prop for C15 {
         }
         if !qa.is_empty() && !qb.is_empty() { ctx.hit("probe.both_operands_hold_quoted_terms"); }
         match lexical(&a) { Ok(l2) if l2.quads == la.quads && l2.graphs == la.graphs => {} _ => return Some(Violation::new("union-mutated-operand", "union changed its left operand".into())) }
+        // ---- a dictionary that has handed out almost every plain identifier: new terms either get a plain identifier that decodes,
+        // or the dictionary refuses (its documented exhaustion panic); an identifier in the quoted-triple range is never issued for a plain term
+        if let Some(gap) = c.exhaust {
+            a.dictionary.write().unwrap().next_id = shared::quoted_triple_store::QUOTED_TRIPLE_ID_BIT - gap;
+            for k in 0..(gap + 2) {
+                let term = format!("http://e/late{}", k);
+                let t2 = term.clone(); let dbr = &a;
+                match guard(move || dbr.dictionary.write().map(|mut d| d.encode(&t2)).ok()) {
+                    Err((_, msg)) => { if !msg.contains("exhausted") { return Some(Violation::new("unwind", format!("encoding a new term near the end of the identifier space unwound: {}", msg))); } ctx.hit("fault.identifier_space_exhausted"); a.dictionary.clear_poison(); break; }
+                    Ok(None) => break,
+                    Ok(Some(id)) => {
+                        if is_quoted_triple_id(id) { return Some(Violation::new("id-range", format!("plain term {:?} got identifier {:#x}, which lies in the quoted-triple range (next_id was {} below the boundary)", term, id, gap))); }
+                        if a.decode_any(id).as_deref() != Some(term.as_str()) { return Some(Violation::new("decode-wrong", format!("term {:?} encoded near the end of the identifier space to {:#x} does not decode back", term, id))); }
+                    }
+                }
+            }
+        }
         if !la.quads.is_empty() && !lb.quads.is_empty() { ctx.nontrivial(kolibrie_verif_rt::log::fnv(&format!("{:?}{:?}", c.a, c.b))); }
         if !la.quads.is_disjoint(&lb.quads) { ctx.hit("probe.operands_share_quads"); }
         if c.pad_b > 0 { ctx.hit("probe.identifiers_clash_between_operands"); }
@@ -138,6 +155,7 @@ impl Prop for C15 {
         for x in shrink_vec(&c.a) { out.push(DictCase { a: x, ..c.clone() }); }
         for x in shrink_vec(&c.b) { out.push(DictCase { b: x, ..c.clone() }); }
         if c.pad_b > 0 { out.push(DictCase { pad_b: 0, ..c.clone() }); }
+        if c.exhaust.is_some() { out.push(DictCase { exhaust: None, ..c.clone() }); }
         if c.hash_seed != 0 { out.push(DictCase { hash_seed: 0, ..c.clone() }); }
         out
     }
